@@ -452,6 +452,83 @@ fn design_case(d: &mut Draw, cfg: &GenCfg, cycles: usize) -> Outcome {
     Outcome::pass(hash_str(&sample), nontrivial, classes, sample)
 }
 
+/// Small hand-templated modules around `inside` / `outside` / `case` with
+/// ranges, over 2–5 bit inputs, compared on *every* input vector with and
+/// without `expand_inside_operation`.  The selector is a plain input when an
+/// exclusive range is present (the exclusive bound on an operator selector is
+/// a listed finding).
+fn range_template_case(d: &mut Draw) -> Outcome {
+    let w = 2 + d.below(4) as usize;
+    let max = (1u64 << w) - 1;
+    let n_items = 1 + d.below(3);
+    let mut items = vec![];
+    let mut has_excl = false;
+    for _ in 0..n_items {
+        let a = d.below(max as u32 + 1) as u64;
+        let b = a + d.below((max - a) as u32 + 1) as u64;
+        match d.below(3) {
+            0 => items.push(format!("{w}'d{a}")),
+            1 => items.push(format!("{w}'d{a}..={w}'d{b}")),
+            _ => {
+                // `x..0` is the listed exclusive-bound finding in another guise ((0)-1 wraps at 32 bits)
+                let b = b.max(1);
+                has_excl = true;
+                items.push(format!("{w}'d{}..{w}'d{b}", a.min(b)))
+            }
+        }
+    }
+    let sel = if has_excl || d.bool() { "a".to_string() } else { ["~a", "a + b", "a ^ b", "a - b"][d.below(4) as usize].to_string() };
+    let body = match d.below(4) {
+        0 => format!("    assign o = if inside {sel} {{{}}} ? 4'd1 : 4'd2;", items.join(", ")),
+        1 => format!("    assign o = if outside {sel} {{{}}} ? 4'd1 : 4'd2;", items.join(", ")),
+        2 => format!("    assign o = case {sel} {{ {}: 4'd1, {w}'d0: 4'd3, default: 4'd2, }};", items.join(", ")),
+        _ => format!(
+            "    always_comb {{\n        case {sel} {{\n            {}: o = 4'd1;\n            {w}'d1: o = 4'd3;\n            default: o = 4'd2;\n        }}\n    }}",
+            items.join(", ")
+        ),
+    };
+    let text = format!("module Top (\n    a: input logic<{w}>,\n    b: input logic<{w}>,\n    o: output logic<4>,\n) {{\n{body}\n}}\n");
+    let var = Opts {
+        expand_inside: true,
+        ..Opts::default()
+    };
+    let v = match judge(&text, &var) {
+        Err(why) => return Outcome::skip(why),
+        Ok(Err((sig, msg, input))) => return Outcome::fail(sig, msg, input),
+        Ok(Ok(v)) => v,
+    };
+    let run = |sv: &str| -> Result<Vec<vsv::Bv>, vsv::Unsupported> {
+        let mut sim = Sim::from_sv(&[sv], "prj_Top")?;
+        let mut out = vec![];
+        for a in 0..=max {
+            for b in 0..=max {
+                sim.set("a", &vsv::Bv::from_u64(a, w, false))?;
+                sim.set("b", &vsv::Bv::from_u64(b, w, false))?;
+                sim.settle()?;
+                out.push(sim.get("o").unwrap());
+            }
+        }
+        Ok(out)
+    };
+    match (run(&v.base_sv), run(&v.var_sv)) {
+        (Ok(x), Ok(y)) => {
+            if let Some(k) = (0..x.len()).find(|&k| x[k] != y[k]) {
+                return Outcome::fail(
+                    "expand-inside/behaviour",
+                    format!("a={} b={}: o = {} with `inside`, {} with the expansion", k as u64 / (max + 1), k as u64 % (max + 1), x[k], y[k]),
+                    json!({"veryl": text, "sv_default": v.base_sv, "sv_variant": v.var_sv}),
+                );
+            }
+        }
+        (Err(u), _) | (_, Err(u)) => return Outcome::skip(format!("vsv unsupported: {}", u.class())),
+    }
+    let mut classes = vec!["input:range-template".to_string(), format!("template_width:{w}")];
+    if has_excl {
+        classes.push("template_exclusive_range".into());
+    }
+    Outcome::pass(hash_str(&text), true, classes, text)
+}
+
 fn corpus_case(d: &mut Draw, files: &[(String, String)]) -> Outcome {
     let (name, text) = &files[d.below_usize(files.len())];
     let var = Opts::draw(d);
@@ -570,7 +647,7 @@ pub fn run(ctx: &Ctx) {
     ctx.note("corpus_files_usable", json!(files.len()));
     ctx.note("corpus_files_rejected", json!(rejected));
     let n_corpus = ctx.scale(250, 8000);
-    let n_design = ctx.scale(400, 12_000);
+    let n_design = ctx.scale(300, 12_000);
     if !files.is_empty() {
         let files = std::sync::Arc::new(files);
         ctx.run("corpus", CaseCfg::cases(n_corpus).choices(64).stack_mb(16), move |d: &mut Draw| corpus_case(d, &files));
@@ -581,6 +658,7 @@ pub fn run(ctx: &Ctx) {
         ..GenCfg::default()
     };
     let cycles = if ctx.is_quick() { 16 } else { 60 };
+    ctx.run("range-template", CaseCfg::cases(ctx.scale(250, 6000)).choices(64).stack_mb(16), range_template_case);
     ctx.run("design", CaseCfg::cases(n_design).choices(14_000).stack_mb(16), move |d: &mut Draw| design_case(d, &cfg, cycles));
     ctx.assume("every emission is a separate analysis + emission on its own thread, as separate `veryl build` runs would be");
     ctx.assume("behaviour of expanded vs unexpanded `inside` is compared with vsv (no external SystemVerilog simulator in the sandbox)");
